@@ -503,8 +503,7 @@ func condenseWHSP(b string) string {
 	var last bool // previous char was WHSP or HTAB.
 	var builder strings.Builder
 
-	for i := 0; i < len(b); i++ {
-		c := rune(b[i])
+	for _, c := range b {
 		switch c {
 		case rune(9), rune(32): // match either WHSP or horizontal tab
 			if !last {
